@@ -451,7 +451,7 @@ int main(int argc, char** argv) {
   std::uint64_t seed = 1;
   long runs = 20, first_run = 0;
   int threads = 0, calls = 0;
-  long watchdog_s = 20;
+  long watchdog_s = 30;
   const char* outp = nullptr;
   for (int i = 1; i < argc; ++i) {
     const std::string a = argv[i];
@@ -483,6 +483,7 @@ int main(int argc, char** argv) {
   out.boolean("ndebug", false);
 #endif
   out.num("seed", static_cast<long long>(seed & 0x7FFFFFFF)).end();
+  out.flush();  // a crash handler cannot flush: keep the file well-formed at every point
   static const char* const profiles[] = {"mix", "hammer", "tight"};
   for (long rn = first_run; rn < first_run + runs; ++rn) {
     auto run = std::make_unique<Run>();
